@@ -792,17 +792,24 @@ def c14_r14(ctx):
                   "FieldNode(name=<built name>, arguments=[one per formatted variable: original name -> unique variable], selection_set iff there is something to select)", fi.loc(),
                   okmsg=f"sub-fields={sub} inline={inl}: FieldNode(name, arguments per variable, selection set {'present' if sub or inl else 'None'})")
     bs = repo.func(BO_ + "GraphQLField._build_selections")
-    outs = [o for o in Interp(bs, lambda e: None).run() if o.kind == "return" and any("loop body once" in t for t in o.trace)]
+    outs = [o for o in Interp(bs, lambda e: None).run() if o.kind == "return"]
     good = bool(outs)
     for o in outs:
         nm = o.value.id if isinstance(o.value, ast.Name) else None
         base = strip_pre(o.deref(o.value)) if nm else strip_pre(o.value)
-        ms = [norm(strip_pre(m)) for m in (o.muts(nm) if nm else [])]
+        ms = [strip_pre(m) for m in (o.muts(nm) if nm else [])]
         cs = comp_struct(base) if isinstance(base, (ast.ListComp,)) else None
         good = good and cs is not None and cs[0] in ("$0.to_ast(idx=idx, used_names=used_names)", "$0.to_ast(idx, used_names)") and [(str(a), list(map(str, b))) for a, b in cs[1]] == [("self._subfields", [])]
-        el = "<elem>(self._inline_fragments.items())"
-        good = good and any(m.startswith(f"{nm}.append(InlineFragmentNode(type_condition=NamedTypeNode(name=NameNode(value={el}[0])), selection_set=SelectionSetNode(selections=[") and
-                            f" in {el}[1]]" in m and ".to_ast(" in m for m in ms)
+        # the loop over the inline fragments is an `extend(<generator>)` after loading
+        ext = [m for m in ms if isinstance(m, ast.Call) and isinstance(m.func, ast.Attribute) and m.func.attr == "extend" and m.args and isinstance(m.args[0], (ast.GeneratorExp, ast.ListComp))]
+        ok_ext = False
+        for m in ext:
+            c2 = comp_struct(m.args[0])
+            inner = [n for n in ast.walk(m.args[0].elt) if isinstance(n, (ast.ListComp, ast.GeneratorExp))]
+            ok_ext = ok_ext or (c2 is not None and [(str(a), list(map(str, b))) for a, b in c2[1]] == [("self._inline_fragments.items()", [])]
+                                and str(c2[0]).startswith("InlineFragmentNode(type_condition=NamedTypeNode(name=NameNode(value=$0_0)), selection_set=SelectionSetNode(selections=[")
+                                and len(inner) == 1 and ".to_ast(" in norm(inner[0].elt) and str(c2[0]).rstrip(")").endswith(" in $0_1]"))
+        good = good and ok_ext and len(ms) == len(ext) == 1
     ctx.check(good, key(bs, "selections"), f"selections must be every sub-field (in order) followed by one `... on <Type> {{ ... }}` per inline fragment with that fragment's own sub-fields: {[o.text()[:200] for o in outs][:1]}",
               bs.loc(), okmsg="selections = sub-fields + one inline fragment node per type with its own sub-fields")
     al = repo.func(BO_ + "GraphQLField.alias")
